@@ -307,6 +307,14 @@ def _reaction_from_dict(reaction: Dict, model: Model) -> Reaction:
 
     """
     new_reaction = Reaction()
+    # Set both bounds at once: one at a time, each would be checked against the
+    # default of the other (e.g. a lower bound above the default upper bound).
+    both_bounds = "lower_bound" in reaction and "upper_bound" in reaction
+    if both_bounds:
+        new_reaction.bounds = (
+            float(reaction["lower_bound"]),
+            float(reaction["upper_bound"]),
+        )
     for k, v in reaction.items():
         if k in {"objective_coefficient", "reversibility", "reaction"}:
             continue
@@ -319,7 +327,8 @@ def _reaction_from_dict(reaction: Dict, model: Model) -> Reaction:
             )
         else:
             if k == "lower_bound" or k == "upper_bound":
-                setattr(new_reaction, k, float(v))
+                if not both_bounds:
+                    setattr(new_reaction, k, float(v))
             else:
                 setattr(new_reaction, k, v)
     return new_reaction
